@@ -570,6 +570,57 @@ func (g *vGen) shuffleOpts(s *vSeg) {
 		g.shuffleOpts(b)
 	}
 }
+
+// a set of tls.handshake_match matchers (sni, alpn, remote_ip, local_ip) as written inside a tls or
+// quic matcher or after "match" in a connection policy: lines, stated JSON, Coq terms (tlsm).
+// remote_ip documents "!" (not_ranges) and both IP matchers the private_ranges shortcut.
+func (g *vGen) tlsMatchSet(min int) ([]*vSeg, map[string]any, []string) {
+	var ents []*vSeg
+	var cs []string
+	m := map[string]any{}
+	cands := []string{"10.0.0.0/8", "192.168.1.7", "fd00::/8", "2001:db8::/32", "127.0.0.1"}
+	for _, k := range g.subset([]string{"sni", "alpn", "remote_ip", "local_ip"}, min) {
+		if _, dup := m[k]; dup {
+			continue
+		}
+		switch k {
+		case "sni":
+			v := g.some([]string{"example.com", "*.example.org", "a.b.c"}, 1, 2)
+			ents, m["sni"], cs = append(ents, vLine(append([]string{"sni"}, v...)...)), jstrs(v), append(cs, "TSni "+cStrs(v))
+		case "alpn":
+			v := g.some([]string{"h2", "http/1.1", "acme-tls/1", "custom"}, 1, 2)
+			ents, m["alpn"], cs = append(ents, vLine(append([]string{"alpn"}, v...)...)), jstrs(v), append(cs, "TAlpn "+cStrs(v))
+		case "local_ip":
+			w, j, c := g.rangesFrom(cands, 1, 3)
+			ents, m[k], cs = append(ents, vLine(append([]string{k}, w...)...)), jobj("ranges", jstrs(j)), append(cs, "TLocalIP "+c)
+		default:
+			n := 1 + g.r.Intn(3)
+			ws := []string{k}
+			var rs, nrs, rc []string
+			for i := 0; i < n; i++ {
+				neg := g.chance(40)
+				var word, c string
+				var js []string
+				if g.chance(30) {
+					word, js, c = "private_ranges", vPrivate, "RPrivate"
+				} else {
+					word = g.pick(cands)
+					js, c = []string{word}, "RCidr "+cStr(word)
+				}
+				if neg {
+					word = "!" + word
+					nrs = append(nrs, js...)
+				} else {
+					rs = append(rs, js...)
+				}
+				ws = append(ws, word)
+				rc = append(rc, fmt.Sprintf("(%s, %s)", cBool(neg), c))
+			}
+			ents, m[k], cs = append(ents, vLine(ws...)), jobj("ranges", jstrs(rs), "not_ranges", jstrs(nrs)), append(cs, "TRemoteIP "+cList(rc))
+		}
+	}
+	return ents, m, cs
+}
 func (g *vGen) matcherLeaf0(kind string) *vLeaf {
 	switch kind {
 	case "ssh":
@@ -828,29 +879,10 @@ func (g *vGen) matcherLeaf0(kind string) *vLeaf {
 			coq:      fmt.Sprintf("MOpenvpn (OpenVPN %s %s %s %s %s %s None [] [])", cStrs(modes), cBool(ic), cBool(it), gkc, cOptStr(ad), cOptStr(dir)),
 			modelled: true}
 	case "tls", "quic":
-		// tls.handshake_match matchers: sni, alpn, remote_ip, local_ip
-		var ents []*vSeg
-		m := map[string]any{}
-		for _, k := range g.subset([]string{"sni", "alpn", "remote_ip", "local_ip"}, 0) {
-			switch k {
-			case "sni":
-				v := g.some([]string{"example.com", "*.example.org", "a.b.c"}, 1, 2)
-				ents, m["sni"] = append(ents, vLine(append([]string{"sni"}, v...)...)), jstrs(v)
-			case "alpn":
-				v := g.some([]string{"h2", "http/1.1", "acme-tls/1", "custom"}, 1, 2)
-				ents, m["alpn"] = append(ents, vLine(append([]string{"alpn"}, v...)...)), jstrs(v)
-			default:
-				v := g.some([]string{"10.0.0.0/8", "192.168.1.7", "fd00::/8"}, 1, 2)
-				ents, m[k] = append(ents, vLine(append([]string{k}, v...)...)), jobj("ranges", jstrs(v))
-			}
-		}
-		var sg *vSeg
-		if len(ents) == 1 && g.r.Bool() {
-			sg = &vSeg{ws: append([]string{kind}, ents[0].ws...)}
-		} else {
-			sg = vBlock(kind, nil, ents)
-		}
-		return &vLeaf{name: kind, seg: sg, js: m}
+		ents, m, cs := g.tlsMatchSet(0)
+		inl := len(ents) == 1 && g.r.Bool()
+		return &vLeaf{name: kind, seg: vSetSeg(kind, inl, ents), js: m,
+			coq: fmt.Sprintf("MTls %s %s %s", cBool(kind == "quic"), cBool(inl), cList(cs)), modelled: true}
 	case "http":
 		var ents []*vSeg
 		m := map[string]any{}
@@ -881,6 +913,7 @@ func (g *vGen) matcherLeaf0(kind string) *vLeaf {
 	panic("unknown matcher kind " + kind)
 }
 
+var vModelledKinds = append(append([]string{}, vMatcherKinds[:15]...), "tls", "quic")
 var vHandlerKinds = []string{"echo", "proxy_protocol", "throttle", "socks5", "proxy", "tls"}
 
 func (g *vGen) optInt(pct int, cands []int64) *int64 {
@@ -1137,10 +1170,10 @@ func (g *vGen) handlerLeaf0(kind string) *vLeaf {
 			}
 			var match any
 			var mseg []*vSeg
-			if g.chance(40) {
-				v := g.some([]string{"example.com", "*.example.org"}, 1, 2)
-				match = map[string]any{"sni": jstrs(v)}
-				mseg = []*vSeg{vLine(append([]string{"match", "sni"}, v...)...)}
+			if g.chance(50) {
+				ents, mm, _ := g.tlsMatchSet(1)
+				match = mm
+				mseg = []*vSeg{vSetSeg("match", len(ents) == 1 && g.r.Bool(), ents)}
 			}
 			pmin, pmax := "", ""
 			if len(protos) > 0 {
@@ -1484,7 +1517,7 @@ func (g *vGen) matcher(depth int, exclude map[string]bool) *vMatcher {
 	for {
 		k := g.pick(vMatcherKinds)
 		if !g.full {
-			k = g.pick(vMatcherKinds[:15])
+			k = g.pick(vModelledKinds)
 		}
 		if !exclude[k] {
 			return &vMatcher{leaf: g.matcherLeaf(k)}
@@ -1812,7 +1845,7 @@ func vLayer4Wrappers(parsed any) []any {
 // module names the Coq model covers (used to decide whether a golden is in the modelled fragment)
 var vModelledMatchers = map[string]bool{"ssh": true, "xmpp": true, "postgres": true, "proxy_protocol": true, "socks4": true, "socks5": true,
 	"regexp": true, "clock": true, "wireguard": true, "winbox": true, "remote_ip": true, "local_ip": true, "dns": true, "rdp": true,
-	"openvpn": true, "not": true}
+	"openvpn": true, "not": true, "tls": true, "quic": true}
 var vModelledHandlers = map[string]bool{"echo": true, "proxy_protocol": true, "throttle": true, "socks5": true, "proxy": true, "tee": true, "subroute": true}
 
 func vRoutesModelled(routes any) bool {
